@@ -1,6 +1,8 @@
 package main
 
 import (
+	"golang.org/x/sys/unix"
+	"runtime"
 	"errors"
 	"github.com/polydawn/rio/lib/verifhook"
 	"time"
@@ -349,7 +351,70 @@ func packenvBigDir(c *Ctx, op string) {
 	c.EmitR(op, "skip", "skip")
 }
 
-func init() { engines["bigdir"] = func(c *Ctx) { packenvBigDir(c, "packenv-bigdir 5000") } }
+func init() {
+	engines["bigdir"] = func(c *Ctx) {
+		if ls := replayLines(); ls != nil {
+			for _, op := range ls {
+				if strings.HasPrefix(op, "packenv-bigdir ") {
+					packenvBigDir(c, op)
+				} else if strings.HasPrefix(op, "packenv-repack-edit ") {
+					packenvRepackEdit(c, op)
+				}
+			}
+			return
+		}
+		packenvBigDir(c, "packenv-bigdir 5000")
+		packenvRepackEdit(c, "packenv-repack-edit tar")
+		packenvRepackEdit(c, "packenv-repack-edit zip")
+	}
+}
+
+// packenvRepackEdit: one process packs the same tree path twice; between the packs a regular file gets other bytes of
+// the same length and its mtime is put back (a build that pins mtimes). The second id differs from the first (C04) and is
+// what the edited tree packs to at a fresh path (C01). Recipe: "packenv-repack-edit <tar|zip>".
+func packenvRepackEdit(c *Ctx, op string) {
+	fmtName := strings.Fields(op)[1]
+	caseCounter++
+	base := filepath.Join(c.Work, fmt.Sprintf("pre%d", caseCounter))
+	defer rmrf(base)
+	t := time.Unix(1.3e9, 0)
+	mk := func(dir string, body string) {
+		os.MkdirAll(filepath.Join(dir, "d"), 0755)
+		os.WriteFile(filepath.Join(dir, "d", "data.bin"), []byte(body), 0644)
+		os.WriteFile(filepath.Join(dir, "other"), []byte("unchanged"), 0644)
+		for _, p := range []string{"d/data.bin", "other", "d", "."} {
+			os.Chtimes(filepath.Join(dir, p), t, t)
+		}
+	}
+	fn := funcsFor(fmtName)
+	pf := api.MustParseFilesetPackFilter(losslessPackStr)
+	pack := func(dir string) string {
+		id, err, pan := safeCall(func() (api.WareID, error) {
+			return fn.pack(context.Background(), api.PackType(fmtName), dir, pf, "", rio.Monitor{})
+		})
+		return resTok(id, err, pan)
+	}
+	p, q := filepath.Join(base, "tree"), filepath.Join(base, "fresh")
+	mk(p, "AAAAAAAAAAAAAAAA-first-version")
+	id1 := pack(p)
+	pack(p) // (a warm second pass over the unchanged tree)
+	mk(p, "BBBBBBBBBBBBBBBB-other-version")
+	id2 := pack(p)
+	mk(q, "BBBBBBBBBBBBBBBB-other-version")
+	idQ := pack(q)
+	c.EmitR(op, "skip", "skip")
+	c.H("repack-edit:" + fmtName)
+	if !strings.HasPrefix(id1, "ok ") || !strings.HasPrefix(idQ, "ok ") {
+		return
+	}
+	if id2 == id1 {
+		c.PropFail("collision", fmt.Sprintf("a tree packed (%s), one file given other bytes of the same length with its mtime put back, packed again at the same path by the same process: the id is unchanged (%s)", fmtName, id1), op)
+	}
+	if id2 != idQ {
+		c.PropFail("pack-env", fmt.Sprintf("the edited tree packs (%s) to %s at the path this process packed its earlier version at, and to %s at a fresh path", fmtName, id2, idQ), op)
+	}
+	c.Distinct(op)
+}
 
 
 // packenvFailThen: a pack that fails partway (the warehouse refuses the i-th write) followed, in the same process and on
@@ -477,6 +542,70 @@ func packenvCancel(c *Ctx, op string) {
 	c.Distinct(op)
 }
 
+// packenvUnreadable: the packing thread loses the privilege to open one regular file of the tree (fsuid of an ordinary
+// user, a 0600 file of root's) — lstat works, open does not. The pack fails, or answers the id it gives when it can read
+// everything; it never answers another id. Recipe: "packenv-unreadable <tar|zip>".
+func packenvUnreadable(c *Ctx, op string) {
+	fmtName := strings.Fields(op)[1]
+	caseCounter++
+	base := filepath.Join("/dev/shm", fmt.Sprintf("verif-pun-%d-%d", os.Getpid(), caseCounter)) // (a path every user can traverse)
+	defer rmrf(base)
+	src := filepath.Join(base, "src")
+	os.MkdirAll(filepath.Join(src, "d"), 0755)
+	os.Chmod(base, 0755)
+	os.WriteFile(filepath.Join(src, "d", "public"), []byte("readable"), 0644)
+	os.WriteFile(filepath.Join(src, "secret-empty"), nil, 0600)
+	os.WriteFile(filepath.Join(src, "secret"), []byte("for root's eyes only"), 0600)
+	fn := funcsFor(fmtName)
+	pf := api.MustParseFilesetPackFilter(losslessPackStr)
+	pack := func() string {
+		id, err, pan := safeCall(func() (api.WareID, error) {
+			return fn.pack(context.Background(), api.PackType(fmtName), src, pf, "", rio.Monitor{})
+		})
+		return resTok(id, err, pan)
+	}
+	ref := pack()
+	c.EmitR(op, "skip", "skip")
+	if !strings.HasPrefix(ref, "ok ") {
+		return
+	}
+	for _, victim := range []string{"secret", "secret-empty"} {
+		// only one of the two is unreadable at a time
+		os.Chmod(filepath.Join(src, "secret"), 0644)
+		os.Chmod(filepath.Join(src, "secret-empty"), 0644)
+		os.Chmod(filepath.Join(src, victim), 0600)
+		os.Chmod(filepath.Join(src, "secret"), map[bool]os.FileMode{true: 0600, false: 0644}[victim == "secret"])
+		done := make(chan string, 1)
+		go func() {
+			runtime.LockOSThread() // never unlocked: the thread dies with the goroutine, its fsuid with it
+			if e := unix.Setfsuid(65534); e != nil {
+				done <- "skip"
+				return
+			}
+			unix.Setfsgid(65534)
+			done <- pack()
+		}()
+		r := <-done
+		os.Chmod(filepath.Join(src, "secret"), 0600)
+		os.Chmod(filepath.Join(src, "secret-empty"), 0600)
+		c.H("unreadable:" + fmtName + ":" + victim + ":" + strings.Fields(r)[0])
+		// (perms differ from the reference run only on the victim's sibling: compare against a reference taken the same way)
+		os.Chmod(filepath.Join(src, "secret"), 0644)
+		os.Chmod(filepath.Join(src, "secret-empty"), 0644)
+		os.Chmod(filepath.Join(src, victim), 0600)
+		want := pack()
+		os.Chmod(filepath.Join(src, "secret"), 0600)
+		os.Chmod(filepath.Join(src, "secret-empty"), 0600)
+		if strings.HasPrefix(r, "ok ") && r != want {
+			c.PropFail("pack-env", fmt.Sprintf("a pack (%s) that could not open %s (permission denied to the packing thread) answered %s without an error; with the file readable the tree packs to %s", fmtName, victim, r, want), op)
+		}
+		if r == "panic" {
+			c.PropFail("pack-env", "a pack that could not open a file panicked", op)
+		}
+	}
+	c.Distinct(op)
+}
+
 func packenvEngine(c *Ctx) {
 	if ls := replayLines(); ls != nil {
 		for _, op := range ls {
@@ -486,6 +615,10 @@ func packenvEngine(c *Ctx) {
 				packenvFailThen(c, op)
 			} else if strings.HasPrefix(op, "packenv-cancel ") {
 				packenvCancel(c, op)
+			} else if strings.HasPrefix(op, "packenv-repack-edit ") {
+				packenvRepackEdit(c, op)
+			} else if strings.HasPrefix(op, "packenv-unreadable ") {
+				packenvUnreadable(c, op)
 			} else if strings.HasPrefix(op, "packenv ") && !strings.Contains(op, " #") {
 				packenvExec(c, op)
 			}
@@ -498,6 +631,10 @@ func packenvEngine(c *Ctx) {
 	}
 	packenvCancel(c, "packenv-cancel tar")
 	packenvCancel(c, "packenv-cancel zip")
+	packenvRepackEdit(c, "packenv-repack-edit tar")
+	packenvRepackEdit(c, "packenv-repack-edit zip")
+	packenvUnreadable(c, "packenv-unreadable tar")
+	packenvUnreadable(c, "packenv-unreadable zip")
 	for _, fm := range []string{"tar", "zip"} {
 		for _, at := range []int{0, 2, 5, 9} {
 			packenvFailThen(c, fmt.Sprintf("packenv-failthen %s %d", fm, at))
